@@ -1266,7 +1266,14 @@ Error CodeHolder::relocate_to_base(uint64_t base_address, RelocationSummary* sum
       }
 
       case RelocType::kAbsToRel: {
-        value -= base_address + section_offset + source_offset + region_size;
+        uint64_t source_address = base_address + section_offset + source_offset;
+
+        // AArch64 ADRP is relative to the 4kB page of the instruction.
+        if (re->format().type() == OffsetType::kAArch64_ADRP) {
+          source_address &= ~uint64_t(4096 - 1);
+        }
+
+        value -= source_address + region_size;
 
         // Sign extend as we are not interested in the high 32-bit word in a 32-bit address space.
         if (address_size <= 4) {
